@@ -904,7 +904,23 @@ class Module(object):
             refuse(node, "%s customises attribute access" % cls)
         m = self.method(cls, callee)
         check_sig(m, ["self"], None)
+        check_names(m)
         return m.body
+
+
+RESERVED = ("self", "sqrt", "exp", "log", "numpy", "math", "copy", "float", "int", "len", "sum", "min", "max", "list", "range",
+            "hasattr", "tools", "abs", "sorted", "any", "all")
+
+
+def check_names(f):
+    """the names the translation gives a fixed meaning may not be rebound inside the function (nor be parameters)"""
+    a = f.args
+    for x in a.args[1:] + a.kwonlyargs + a.posonlyargs + ([a.vararg] if a.vararg else []) + ([a.kwarg] if a.kwarg else []):
+        if x.arg in RESERVED:
+            refuse(f, "parameter named %s" % x.arg)
+    for n in ast.walk(f):
+        if isinstance(n, ast.Name) and isinstance(n.ctx, (ast.Store, ast.Del)) and n.id in RESERVED:
+            refuse(n, "%s is rebound inside the function" % n.id)
 
 
 def check_sig(f, params, kwarg):
@@ -937,6 +953,7 @@ def translate_function(mod, key):
         calls = [n for n in ast.walk(f) if isinstance(n, ast.Attribute) and n.attr == spec["capture"][0]]
         if len(calls) != 1:
             refuse(f, "%d references to %s" % (len(calls), spec["capture"][0]))
+    check_names(f)
     tr = Tr(mod, spec)
     tr.closers = 0
     tr.top_level = id(f.body)
